@@ -2,6 +2,7 @@ import FV.Props.C02
 import FV.Props.C12
 import FV.Accepts
 import FV.SizeView
+import FV.ValOk
 /-! # C02 — the acceptance set, constructor by constructor
 
 "`from_bytes` succeeds iff the slice is suitably aligned and holds a well-formed encoding": the alignment / minimum-size gate is
@@ -64,4 +65,18 @@ theorem C02_own_bytes_validate (t : Ty) (h : t.WF) (s : Slice) (hv : t.dict.vali
 /-- non-vacuity: `S1 { a: u32, b: FlatVec<u8,u16> }` with two elements in a 13-byte slice: size 8, view 12 -/
 example : S1.dict.validate ⟨0, [1,0,0,0, 2,0, 7,8, 9,9,9,9, 9]⟩ = .ok () ∧ S1.dict.size ⟨0, [1,0,0,0, 2,0, 7,8, 9,9,9,9, 9]⟩ = .ok 8 ∧
     S1.dict.viewLen 13 = .ok 12 := by decide +kernel
+
+/-- **C02, the returned view is consistent with what was checked.** For every type (no well-formedness assumption is needed) and every
+slice that `from_bytes` accepts: in the content read through the safe accessors **every container reports `len ≤ capacity`** and
+**every string is valid UTF-8**, at every nesting depth — elements of arrays and vectors, fields of structs and of the active enum
+variant, items of FlexVecs, the tail of unsized structs. (That the deep read succeeds at all is `C02_deep_read_total`; the harness
+checks the same on the implementation: the `!OVER` marker and `as_str()`.) -/
+theorem C02_content_consistent (t : Ty) (s : Slice) (v : Val) (hv : t.dict.validate s = .ok ()) (hw : t.dict.walk s = .ok v) :
+    v.ok :=
+  Ty.okLaw t s v (validate_ok_iff.1 hv).2.2 hw
+
+/-- non-vacuity: a `FlatVec<u8, u16>` holding `[7, 8]` in 6 bytes reads as a vector of capacity 4 with two elements -/
+example : (Ty.vec (.prim 1 1) ⟨2, 2, false⟩).dict.validate ⟨0, [2, 0, 7, 8, 9, 9]⟩ = .ok () ∧
+    (Ty.vec (.prim 1 1) ⟨2, 2, false⟩).dict.walk ⟨0, [2, 0, 7, 8, 9, 9]⟩ = .ok (.vec 4 [.raw [7], .raw [8]]) ∧
+    (Val.vec 4 [.raw [7], .raw [8]]).ok := ⟨by decide, rfl, by simp [Val.ok, Val.okL]⟩
 end FV.Props
